@@ -9,7 +9,7 @@ FUNCTIONS = ['frappy.client.SecopClient.{__txthread,__rxthread,queue_request,get
              'frappy.protocol.messages.REQUEST2REPLY', 'frappy.protocol.interface.{encode_msg_frame,decode_msg}', 'frappy.errors.make_secop_error']
 ASSUMPTIONS = ['granularity: one iteration of the transmit loop / receive loop is one atomic step; the order of steps, the reply that arrives '
                '(matching reply, error reply, unrelated update, unknown message, reply nobody asked for) and the request mix (equal and distinct keys, '
-               'unknown action) are chosen by symbolic selectors; <= 3 requests, 4 (quick) / 6 (thorough) steps',
+               'unknown action) are chosen by symbolic selectors; <= 3 requests, 4 (quick) / 5 (thorough) steps',
                'pre-emption INSIDE a loop iteration (e.g. between the active_requests test and the insert into pending) and real thread shutdown '
                'cannot be exhibited by this technique and are not claimed',
                'Event.wait is virtual: a wait on an unset event is an expired time-out']
@@ -96,7 +96,7 @@ class VEvent:
 
 def cases(tier):
     out = []
-    steps = 6 if tier == 'thorough' else 4
+    steps = 5 if tier == 'thorough' else 4
     for i, mix in enumerate(MIXES):
         for first in range(4):
             for second in range(4):
